@@ -8,12 +8,22 @@ design level : IntegerizeMC (TLC, exhaustive one-step enumerations over specs/In
                              first strict minimiser of the mean error; the big-number operators used at trace level
                              agree with the plain ones;
                mode "approx" _integer_approximation with two channels under the 32-bit bias*scale constraint;
+               mode "edge"   the BOUNDARY of the documented option ranges with unbounded integers: shift_pos 32 (shifts
+                             0..31), 1 and 0, scale_bit 1..32, targets tm/2^s with odd tm for EVERY s in 0..31 (the exact shift
+                             is the selected one: EdgeEveryShift), level clause / MAUPITI = MATCH + lo / ranges at scales up to
+                             2^31; sanity variant "2^shift evaluated in 32-bit two's complement" must fail at shift 31;
                mode "big"    the big-number library against TLC's native integers.
                Expected-to-fail sanity configurations: asis zero-point with mixed activation bits (= F14 at design
                level), round instead of floor, dropped bias, zero-point sign.
 spec -> code : every "done" state of the replay configuration is executed on REAL MATCHLinear / MATCHConv2d /
                MAUPITILinear / MAUPITIConv2d objects (constructor and forward; stub quantisers supply exactly dyadic
-               scales), every "sel" state of mode "approx" on the real _integer_approximation of the four classes.
+               scales), every "sel" state of mode "approx" on the real _integer_approximation of the four classes; every
+               state of mode "edge" on the real MATCH classes with the state's scale_bit / shift_pos (MAUPITI where its
+               constants 16 / 32 can represent the target).  Vacuity guard: every shift 0..31 must have been selected by a
+               real MATCH layer, shift 0 and shift 31 also by layers of generated NETWORKS (MATCH options include
+               shift_pos 32 with scale_bit 8/16/24/32, (32,1), (1,32), (1,1); low-precision networks with biases below one
+               output level let the largest shifts through the 32-bit guard); the histogram of selected shifts is in the
+               evidence (coverage.selected_shifts).
 code -> spec : seeded random sequential / depthwise-separable 2-D networks -> MPS.export() ->
                integerize_arch(deepcopy(...), backend); every integer layer is compared with its fake-quantised
                counterpart on the image of the activations produced by the integer network itself; TLC
@@ -401,7 +411,10 @@ def run(tier: str, seed: int, replay=None) -> int:
               "depthwise-separable 2-D network (1-3 conv blocks with 3x3/1x1/5x3/3x1/1x3 kernels, stride 1-2, square / "
               "non-square / no padding, dilation 2 on either axis, bias on/off, BN folded, max-pool, 1-2 linear layers or a "
               "final conv; weight/activation bits in {2,4,8}, 70% with one activation precision everywhere; PACT clip in "
-              "{1, 2.5, 6}) x backend (MATCH scale_bit 16/24/32, shift_pos 16/24/31; MAUPITI). Non-trivial: tiny = "
+              "{1, 2.5, 6}) x backend (MATCH scale_bit 16/24/32, shift_pos 16/24/31, 25% with an extreme of the documented "
+              "ranges: shift_pos 32 with scale_bit 8/16/24/32, (32,1), (1,32), (1,1); plus 2-/4-bit networks with biases "
+              "scaled by 0 / 0.02 / 0.1 and shift_pos 32; MAUPITI). tiny also covers the 'edge' states (8-bit inputs, "
+              "weights 127, targets odd/2^s for every s in 0..31, scale_bit 1..32, shift_pos 0/1/32). Non-trivial: tiny = "
               "non-zero accumulator; approx = a bias of at least 2^20 in magnitude; net = some layer differs from its "
               "fake-quantised image by a level or saturates, or the real code raised. life: one history of maximal length of "
               "IntegerizeLife ending with a conversion (events: forward, weight update by load_state_dict / optimizer step / "
